@@ -119,12 +119,15 @@ impl<T, D: Data<Elem = f64>> Fit<ArrayBase<D, Ix2>, T, ReductionError> for PcaPa
                 eigvecs.slice_move(s![.., ..size]).reversed_axes(),
             )
         } else {
+            // LOBPCG stops at an absolute residual, bring the problem to unit scale
+            let scale = x.iter().map(|v| v * v).sum::<f64>().sqrt();
+            let scale = if scale > 0. { scale } else { 1. };
             let result =
-                TruncatedSvd::new_with_rng(x, Order::Largest, SmallRng::seed_from_u64(42))
+                TruncatedSvd::new_with_rng(x / scale, Order::Largest, SmallRng::seed_from_u64(42))
                     .decompose(self.embedding_size)?;
             // explained variance is the spectral distribution of the eigenvalues
             let (_, sigma, v_t) = result.values_vectors();
-            (sigma, v_t)
+            (sigma * scale, v_t)
         };
 
         // cut singular values to avoid numerical problems
